@@ -163,9 +163,11 @@ READERS_P = ["Recfile(nrows)", "Recfile(count)", "recfile.read"]
 
 
 def main(ctx):
+    from mc.util import no_fd_leak
     import esutil
     from esutil import sfile, recfile
 
+    @no_fd_leak
     def do_write(writer, fn, d, delim):
         if writer == "sfile.write":
             sfile.write(fn, d, delim=delim)
@@ -183,6 +185,7 @@ def main(ctx):
         else:
             raise ValueError(writer)
 
+    @no_fd_leak
     def do_read(reader, fn, d, delim, offset):
         if reader == "sfile.read":
             return sfile.read(fn, header=True)
